@@ -41,3 +41,261 @@ func H_C01_nextFileIndex_twin() {
 	H_C01_nextFileIndex()
 	verifrt.Assert(false, "twin")
 }
+
+// ---------------------------------------------------------------- hit iterators
+
+const maxU32 = uint32(0xFFFFFFFF)
+
+// symSorted returns a strictly increasing list of n in [0,maxN] symbolic values < MaxUint32.
+func symSorted(name string, maxN int) []uint32 {
+	n := verifrt.Concretize(verifrt.IntRange(name+"_n", 0, maxN))
+	xs := make([]uint32, n)
+	for i := range xs {
+		xs[i] = verifrt.U32(name)
+		verifrt.Assume(xs[i] < maxU32)
+		if i > 0 {
+			verifrt.Assume(xs[i-1] < xs[i])
+		}
+	}
+	return xs
+}
+
+// refFirstAfter: smallest m in ms (sorted) with marks[m] set and m > after (after<0: no bound);
+// MaxUint32 if none or if exhausted. Branch-free over symbolic data.
+func refFirstAfter(ms []uint32, ok []bool, after int64, exhausted bool) uint32 {
+	res := maxU32
+	for i := len(ms) - 1; i >= 0; i-- {
+		c := verifrt.And(ok[i], int64(ms[i]) > after)
+		res = verifrt.IteU32(c, ms[i], res)
+	}
+	return verifrt.IteU32(exhausted, maxU32, res)
+}
+
+func maxI64(a, b int64) int64 {
+	return int64(verifrt.IteInt(a > b, int(a), int(b)))
+}
+
+// distanceHitIterator over two in-memory posting lists.
+func H_C01_distIter() {
+	a := symSorted("a", verifrt.Param("n", 2, 3))
+	b := symSorted("b", verifrt.Param("n", 2, 3))
+	d := verifrt.U32("d")
+	verifrt.Assume(d >= 1)
+	// Precondition (documented in DESIGN.md C01): postings are rune positions inside one shard and
+	// p+d is the position of the pattern's last trigram, so p+d does not wrap around uint32.
+	for _, p := range a {
+		verifrt.Assume(uint64(p)+uint64(d) < uint64(maxU32))
+	}
+	// reference: positions p in a with p+d in b (no wrap-around)
+	ok := make([]bool, len(a))
+	for i := range a {
+		hit := false
+		for j := range b {
+			hit = verifrt.Or(hit, a[i]+d == b[j]) // no wrap-around by the precondition above
+		}
+		ok[i] = hit
+	}
+	it := &distanceHitIterator{
+		i1:       &inMemoryIterator{postings: append([]uint32(nil), a...)},
+		i2:       &inMemoryIterator{postings: append([]uint32(nil), b...)},
+		distance: d,
+	}
+	after := int64(-1)
+	exhausted := false
+	got := it.first()
+	verifrt.Observe("first0", got)
+	verifrt.Assert(got == refFirstAfter(a, ok, after, exhausted), "distIter.first = first position with both trigrams at the distance")
+	steps := verifrt.Concretize(verifrt.IntRange("steps", 0, 2))
+	for s := 0; s < steps; s++ {
+		lim := verifrt.U32("limit")
+		it.next(lim)
+		after = maxI64(after, int64(lim))
+		exhausted = verifrt.Or(exhausted, lim == maxU32)
+		got = it.first()
+		verifrt.Observe("first", got)
+		verifrt.Assert(got == refFirstAfter(a, ok, after, exhausted), "distIter.next(limit) then first = first match past limit")
+	}
+	verifrt.Reach("returned")
+}
+
+func encodeDeltas(xs []uint32) []byte {
+	var out []byte
+	var enc [10]byte
+	last := uint32(0)
+	for _, x := range xs {
+		m := putUvarintRef(enc[:], uint64(x-last))
+		out = append(out, enc[:m]...)
+		last = x
+	}
+	return out
+}
+
+// putUvarintRef: the varint writer the index writer uses (encoding/binary.PutUvarint).
+func putUvarintRef(buf []byte, x uint64) int {
+	i := 0
+	for x >= 0x80 {
+		buf[i] = byte(x) | 0x80
+		x >>= 7
+		i++
+	}
+	buf[i] = byte(x)
+	return i + 1
+}
+
+// compressedPostingIterator over a real delta-varint blob yields the same stream as the list.
+func H_C01_compressedIter() {
+	xs := symSorted("p", verifrt.Param("n", 2, 3))
+	verifrt.Assume(len(xs) > 0)
+	blob := encodeDeltas(xs)
+	it := newCompressedPostingIterator(blob, 0)
+	ok := make([]bool, len(xs))
+	for i := range ok {
+		ok[i] = true
+	}
+	after := int64(-1)
+	exhausted := false
+	got := it.first()
+	verifrt.Observe("first0", got)
+	verifrt.Assert(got == refFirstAfter(xs, ok, after, exhausted), "compressed.first = first posting")
+	steps := verifrt.Concretize(verifrt.IntRange("steps", 0, 2))
+	for s := 0; s < steps; s++ {
+		lim := verifrt.U32("limit")
+		it.next(lim)
+		after = maxI64(after, int64(lim))
+		exhausted = verifrt.Or(exhausted, lim == maxU32)
+		got = it.first()
+		verifrt.Observe("first", got)
+		verifrt.Assert(got == refFirstAfter(xs, ok, after, exhausted), "compressed.next(limit) then first = first posting past limit")
+	}
+	verifrt.Reach("returned")
+}
+
+// mergingIterator = union of its children.
+func H_C01_mergeIter() {
+	a := symSorted("a", 2)
+	b := symSorted("b", 2)
+	c := symSorted("c", 1)
+	it := &mergingIterator{iters: []hitIterator{
+		&inMemoryIterator{postings: append([]uint32(nil), a...)},
+		&inMemoryIterator{postings: append([]uint32(nil), b...)},
+		&inMemoryIterator{postings: append([]uint32(nil), c...)},
+	}}
+	all := append(append(append([]uint32(nil), a...), b...), c...)
+	refMin := func(after int64, exhausted bool) uint32 {
+		res := maxU32
+		for _, v := range all {
+			c := verifrt.And(int64(v) > after, v < res)
+			res = verifrt.IteU32(c, v, res)
+		}
+		return verifrt.IteU32(exhausted, maxU32, res)
+	}
+	after := int64(-1)
+	exhausted := false
+	verifrt.Assert(it.first() == refMin(after, exhausted), "merge.first = min over children")
+	steps := verifrt.Concretize(verifrt.IntRange("steps", 0, 2))
+	for s := 0; s < steps; s++ {
+		lim := verifrt.U32("limit")
+		it.next(lim)
+		after = maxI64(after, int64(lim))
+		exhausted = verifrt.Or(exhausted, lim == maxU32)
+		got := it.first()
+		verifrt.Observe("first", got)
+		verifrt.Assert(got == refMin(after, exhausted), "merge.next(limit) then first = min past limit")
+	}
+	verifrt.Reach("returned")
+}
+
+// ngramDocIterator: candidates of a document are exactly the postings that fit inside it.
+func H_C01_docIter() {
+	nf := verifrt.Concretize(verifrt.IntRange("files", 1, 3))
+	ends := make([]uint32, nf)
+	for i := range ends {
+		ends[i] = verifrt.U32("end")
+		verifrt.Assume(ends[i] < 1<<30)
+		if i > 0 {
+			verifrt.Assume(ends[i-1] <= ends[i]) // empty documents are legal
+		}
+	}
+	ps := symSorted("p", verifrt.Param("n", 3, 4))
+	for _, p := range ps {
+		verifrt.Assume(p < ends[nf-1]) // postings lie inside the corpus
+	}
+	lp, rp := uint32(verifrt.U8("leftPad")), uint32(verifrt.U8("rightPad"))
+	it := &ngramDocIterator{leftPad: lp, rightPad: rp, ends: ends,
+		iter: &inMemoryIterator{postings: append([]uint32(nil), ps...)}}
+
+	// the search loop: nextDoc / prepare / candidates with increasing documents
+	seen := make([]bool, len(ps)) // posting reported as a candidate
+	lastDoc := int64(-1)
+	for round := 0; round < nf; round++ {
+		nd := it.nextDoc()
+		verifrt.Observe("nextDoc", nd)
+		if nd == maxU32 {
+			break
+		}
+		verifrt.Assert(int64(nd) >= lastDoc, "nextDoc is monotone")
+		verifrt.Assert(nd < uint32(nf), "nextDoc is a document")
+		// documents skipped by nextDoc must have no posting that starts inside them
+		doc := verifrt.Concretize(int(nd))
+		var start uint32
+		if doc > 0 {
+			start = ends[doc-1]
+		}
+		end := ends[doc]
+		it.prepare(uint32(doc))
+		cands := it.candidates()
+		// expected: postings p with start+lp <= p, p+rp <= end, p < end (and p >= start)
+		want := 0
+		for i, p := range ps {
+			in := verifrt.And(verifrt.And(p >= start, p < end), verifrt.And(uint64(p) >= uint64(start)+uint64(lp), uint64(p)+uint64(rp) <= uint64(end)))
+			want += verifrt.B2I(in)
+			_ = i
+		}
+		verifrt.Observe("ncand", len(cands))
+		verifrt.Assert(len(cands) == want, "candidates(doc) = postings that fit in the document with padding")
+		for _, c := range cands {
+			verifrt.Assert(c.file == uint32(doc), "candidate carries its document")
+			// its rune offset corresponds to some fitting posting
+			found := false
+			for _, p := range ps {
+				in := verifrt.And(verifrt.And(p >= start, p < end), verifrt.And(uint64(p) >= uint64(start)+uint64(lp), uint64(p)+uint64(rp) <= uint64(end)))
+				found = verifrt.Or(found, verifrt.And(in, c.runeOffset == p-start-lp))
+			}
+			verifrt.Assert(found, "candidate offset = posting - fileStart - leftPad for a fitting posting")
+		}
+		_ = seen
+		lastDoc = int64(doc) + 1
+		if doc+1 >= nf {
+			break
+		}
+		// advance like the search loop does (nextDoc = doc+1)
+		it.prepare(uint32(doc + 1))
+	}
+	verifrt.Reach("returned")
+}
+
+// nextDoc never skips a document that holds a posting: for any doc with a posting inside
+// [start,end), starting from the beginning, nextDoc() <= doc.
+func H_C01_docIterNoSkip() {
+	nf := verifrt.Concretize(verifrt.IntRange("files", 1, 4))
+	ends := make([]uint32, nf)
+	for i := range ends {
+		ends[i] = verifrt.U32("end")
+		verifrt.Assume(ends[i] < 1<<30)
+		if i > 0 {
+			verifrt.Assume(ends[i-1] <= ends[i])
+		}
+	}
+	ps := symSorted("p", 3)
+	verifrt.Assume(len(ps) > 0)
+	for _, p := range ps {
+		verifrt.Assume(p < ends[nf-1])
+	}
+	it := &ngramDocIterator{ends: ends, iter: &inMemoryIterator{postings: append([]uint32(nil), ps...)}}
+	nd := it.nextDoc()
+	verifrt.Observe("nd", nd)
+	// reference: document containing the first posting
+	want := refNextFileIndex(ps[0], 0, ends)
+	verifrt.Assert(nd == want, "nextDoc = document containing the first remaining posting")
+	verifrt.Reach("returned")
+}
